@@ -523,6 +523,12 @@ def run_prop(ctx, prop, focuses):
         out.rule = "replay of a native-thread probe case (repeated 5 times: OS scheduling)"
         m1_threads.probe(ctx, out, {prop}, 5, cases=[ctx.replay["case"]] * 5)
         return out
+    if ctx.replay and ctx.replay.get("case", {}).get("kind") == "native-legacy-backend":
+        from . import m1_threads
+        out = Result()
+        out.rule = "replay: the legacy-protocol backend probe is re-run (OS scheduling decides the interleaving)"
+        m1_threads.legacy_backend_probe(ctx, out, {prop}, 12)
+        return out
     if ctx.replay and ctx.replay.get("case", {}).get("kind") == "native-process":
         from . import m1_threads
         out = Result()
@@ -550,6 +556,7 @@ def run_prop(ctx, prop, focuses):
             from . import m1_threads
             m1_threads.probe(ctx, out, {prop}, 80)
             m1_threads.process_probe(ctx, out, {prop}, 16)
+            m1_threads.legacy_backend_probe(ctx, out, {prop}, 24)
         return out
     rs = [explore(ctx, {prop}, 2400 // len(focuses), f"quick-{f}", f) for f in focuses]
     out = merge(rs)
@@ -560,6 +567,7 @@ def run_prop(ctx, prop, focuses):
         from . import m1_threads
         m1_threads.probe(ctx, out, {prop}, 12)
         m1_threads.process_probe(ctx, out, {prop}, 4)
+        m1_threads.legacy_backend_probe(ctx, out, {prop}, 8)
     return out
 
 
